@@ -667,6 +667,7 @@ WITNESSES = [
     {"name": "str-indent-depth", "file": _V, "rule": "C16.b", "old": 'spaces = " " * indent * (len(coor) - 1)', "new": 'spaces = " " * indent * len(coor)'},
     {"name": "str-skips-none-vs", "file": _V, "rule": "C16.b", "old": "            msg = f\"{spaces}{model.__class__.__name__}({v})\"\n        rows.append(msg)\n", "new": "            msg = f\"{spaces}{model.__class__.__name__}({v})\"\n            rows.append(msg)\n"},
     {"name": "dot-columns-updated-before-inputs", "file": _V, "rule": "C16.c", "old": "            for inp in line[\"inputs\"]:", "new": "            for c, out in enumerate(line[\"outputs\"]):\n                columns[out] = f\"sch{i}:f{c}\"\n            for inp in line[\"inputs\"]:"},
+    {"name": "dot-port-registered-conditionally", "file": _V, "rule": "C16.c", "old": '                columns[out] = f"sch{i}:f{c}"\n', "new": '                if out not in schema:\n                    columns[out] = f"sch{i}:f{c}"\n'},
     {"name": "dot-port-offset", "file": _V, "rule": "C16.c", "old": '                columns[out] = f"sch{i}:f{c}"\n', "new": '                columns[out] = f"sch{i}:f{c + 1}"\n'},
     {"name": "dot-edge-wrong-node", "file": _V, "rule": "C16.c", "old": '                edge = f"  {nc} -> node{i};"\n', "new": '                edge = f"  {nc} -> node{i - 1};"\n'},
     {"name": "dot-input-port-by-name-order", "file": _V, "rule": "C16.c", "old": '                columns[col] = f"sch0:f{c}"\n', "new": '                columns[col] = f"sch0:f{len(schema) - 1 - c}"\n'},
